@@ -25,7 +25,7 @@ class Trace:
         self.owned = {}          # id(obj) -> obj (strong ref: ids are not recycled while tracing)
         self.events = []         # (stage, cls, field, owned: bool)
         self.allocs = []         # (stage, cls)
-        self.stage = "pre"
+        self.stage = "copy"        # nothing is stored before BaseHandler.parse copies the dataset
         self.foreign = []        # writes to objects this request does not own
 
 
@@ -230,18 +230,6 @@ def install():
         w.__wrapped__ = orig
         setattr(mod, fname, w)
 
-    class CopyShim(object):
-        """`copy` as seen by handlers/lib.py: the first copy.copy of a request is BaseHandler.parse's"""
-        deepcopy = staticmethod(_copy.deepcopy)
-
-        @staticmethod
-        def copy(x):
-            tr = current()
-            if tr is not None and tr.stage == "pre":
-                tr.stage = "copy"
-            return _copy.copy(x)
-
-    hl.copy = CopyShim
     stage_wrapper(hl, "apply_selection", "selection")
     stage_wrapper(hl, "wrap_arrayterator", "wrap")
     stage_wrapper(hl, "apply_projection", "projection", after="response")
